@@ -1,1 +1,227 @@
-(** Props/C20.v — placeholder, to be written. *)
+(** Props/C20.v — configuration precedence and merge.
+
+    Vocabulary (Model/Config.v): [e : env] is the set of relevant environment variables
+    (any of them set or unset), [fs : fsys] an ARBITRARY file system — so every subset of
+    the config locations that exist and every assignment of settings to those files —,
+    [init e fs c] is [Config.init] run on the Config object [c] ([defaults e] for a fresh
+    one).  [precedence e fs] lists the consulted locations with what each file says,
+    highest precedence first: local file, ./pyproject.toml [tool.pypyr], then either
+    $PYPYR_CONFIG_GLOBAL alone or the user file followed by the common directories in
+    listed order (last-listed lowest).  [first_setting says l] is what the first
+    (= highest-precedence) payload of [l] that says anything says. *)
+From PV Require Import Config ConfigProofs.
+Open Scope string_scope.
+
+(** Each scalar setting = the value in the highest-precedence file that sets it, else
+    what the object had before (the default). *)
+Theorem C20_scalar_highest_wins : forall e fs c c' s,
+  skip_requested e = false -> init e fs c = COk c' -> In s scalar_props ->
+  setting s c' =
+  or_else (first_setting (file_sets (VStr s)) (map snd (precedence e fs))) (setting s c).
+Proof. exact init_scalar. Qed.
+Print Assumptions C20_scalar_highest_wins.
+
+(** vars and shortcuts: key-wise union with the same precedence — for EVERY key [k] (of
+    any type), the entry is the one of the highest-precedence file whose vars (shortcuts)
+    mapping has [k]; a key no file has is absent (or the pre-existing entry). *)
+Theorem C20_dict_union_precedence : forall e fs c c' k,
+  skip_requested e = false -> init e fs c = COk c' ->
+  dict_get k (c_vars c') =
+    or_else (first_setting (file_sets_in "vars" k) (map snd (precedence e fs)))
+            (dict_get k (c_vars c))
+  /\
+  dict_get k (c_shortcuts c') =
+    or_else (first_setting (file_sets_in "shortcuts" k) (map snd (precedence e fs)))
+            (dict_get k (c_shortcuts c)).
+Proof. intros; split; [eapply init_vars|eapply init_shortcuts]; eauto. Qed.
+Print Assumptions C20_dict_union_precedence.
+
+(** The order itself, both ways round. *)
+Theorem C20_precedence_order : forall e fs,
+  (forall g, global_path e = Some g ->
+     precedence e fs = [(local_name e, payload_at fs (local_name e));
+                        (pyproject_name, pyproject_payload fs);
+                        (g, payload_at fs g)])
+  /\
+  (global_path e = None ->
+     precedence e fs = (local_name e, payload_at fs (local_name e)) ::
+                       (pyproject_name, pyproject_payload fs) ::
+                       (user_path e, payload_at fs (user_path e)) ::
+                       map (fun p => (p, payload_at fs p)) (common_paths e)).
+Proof. intros; split; [intros; apply precedence_global; assumption|apply precedence_no_global]. Qed.
+Print Assumptions C20_precedence_order.
+
+(** Files every clause accepts are accepted: [init] does return a configuration (so the
+    two theorems above are not vacuous for any such file set). *)
+Theorem C20_wellformed_accepted : forall e fs c,
+  skip_requested e = false ->
+  (forall g, global_path e = Some g -> fs g <> Absent) ->
+  pyproject_wellformed fs = true ->
+  (forall path v, In (path, v) (precedence e fs) -> payload_wellformed v = true) ->
+  exists c', init e fs c = COk c'.
+Proof. exact init_wf. Qed.
+Print Assumptions C20_wellformed_accepted.
+
+(** An unknown setting is rejected: the file itself raises the config error naming exactly
+    the unknown keys, whatever the configuration so far ... *)
+Theorem C20_unknown_rejected_file : forall c path d,
+  (exists k, In k (dict_keys d) /\ is_known k = false) ->
+  handle_payload c path (VDict d) = CErr (EUnknownProps (unknown_keys d))
+  /\ is_config_error (EUnknownProps (unknown_keys d)) = true
+  /\ unknown_keys d <> []
+  /\ (forall k, In k (unknown_keys d) <-> In k (dict_keys d) /\ is_known k = false).
+Proof.
+  intros c path d H. destruct (handle_payload_unknown c path d H) as (A & B & C).
+  split; [exact A|split; [reflexivity|split; [exact B|exact C]]].
+Qed.
+Print Assumptions C20_unknown_rejected_file.
+
+(** ... and [init] never returns a configuration when any consulted file has one. *)
+Theorem C20_unknown_rejected : forall e fs c path d k,
+  skip_requested e = false ->
+  In (path, VDict d) (precedence e fs) -> In k (dict_keys d) -> is_known k = false ->
+  forall c', init e fs c <> COk c'.
+Proof. exact init_unknown_rejected. Qed.
+Print Assumptions C20_unknown_rejected.
+
+(** A non-mapping file is rejected with a config error.
+    FULL STATEMENT (false of the code as it is):
+
+      forall c path v, is_mapping v = false -> v <> VNone ->
+        handle_payload c path v = CErr (ENotMapping path)
+
+    ([VNone] = an empty yaml document, which has no top-level node at all.)  Refuted: a
+    local pypyr-config.yaml consisting of [[]] (likewise [0], [false], ['']) is consulted,
+    is neither a mapping nor empty, and [init] returns the untouched defaults. *)
+Definition env0 : env :=
+  mkEnv None None None (Some "/SB/c1:/SB/c2") (Some "/SB/u") "/SB/home" None None None.
+
+Theorem C20_nonmapping_rejected_refuted :
+  exists e fs path v,
+    skip_requested e = false /\ In (path, v) (precedence e fs) /\
+    is_mapping v = false /\ v <> VNone /\
+    init e fs (defaults e) =
+      COk (with_paths (defaults e) (user_path e) (common_paths e)).
+Proof.
+  exists env0, (fs_of_list [("pypyr-config.yaml", VList [])]), "pypyr-config.yaml", (VList []).
+  split; [reflexivity|]. split; [left; reflexivity|]. split; [reflexivity|].
+  split; [discriminate|]. vm_compute. reflexivity.
+Qed.
+Print Assumptions C20_nonmapping_rejected_refuted.
+
+(** What does hold: every TRUTHY non-mapping payload is rejected with the config error
+    naming the file, and [init] never returns a configuration when one is consulted. *)
+Theorem C20_nonmapping_rejected_partial : forall c path v,
+  py_truth v = true -> is_mapping v = false ->
+  handle_payload c path v = CErr (ENotMapping path)
+  /\ is_config_error (ENotMapping path) = true.
+Proof. intros; split; [apply handle_payload_truthy_nonmapping; assumption|reflexivity]. Qed.
+Print Assumptions C20_nonmapping_rejected_partial.
+
+Theorem C20_nonmapping_rejected_init_partial : forall e fs c path v,
+  skip_requested e = false ->
+  In (path, v) (precedence e fs) -> py_truth v = true -> is_mapping v = false ->
+  forall c', init e fs c <> COk c'.
+Proof. exact init_truthy_nonmapping_rejected. Qed.
+Print Assumptions C20_nonmapping_rejected_init_partial.
+
+(** $PYPYR_CONFIG_GLOBAL, when set (non-empty), replaces the common and user files: the
+    outcome depends on the file system only through the global file, ./pyproject.toml and
+    the local file — whatever exists in the common and user locations is irrelevant. *)
+Theorem C20_global_replaces : forall e fs1 fs2 c g,
+  global_path e = Some g ->
+  fs1 g = fs2 g -> fs1 pyproject_name = fs2 pyproject_name ->
+  fs1 (local_name e) = fs2 (local_name e) ->
+  init e fs1 c = init e fs2 c.
+Proof. exact init_global_replaces. Qed.
+Print Assumptions C20_global_replaces.
+
+(** ... and must exist. *)
+Theorem C20_global_must_exist : forall e fs c g,
+  skip_requested e = false -> global_path e = Some g -> fs g = Absent ->
+  init e fs c = CErr (ENotFound g) /\ is_config_error (ENotFound g) = true.
+Proof. intros; split; [apply init_global_must_exist; assumption|reflexivity]. Qed.
+Print Assumptions C20_global_must_exist.
+
+(** $PYPYR_SKIP_INIT skips all file look-ups: for every file system the result is the
+    object as it was, with only [skip_init] raised. *)
+Theorem C20_skip_init : forall e fs c,
+  skip_requested e = true ->
+  init e fs c = COk (with_skip c)
+  /\ c_scalars (with_skip c) = c_scalars c
+  /\ c_vars (with_skip c) = c_vars c
+  /\ c_shortcuts (with_skip c) = c_shortcuts c
+  /\ c_loaded (with_skip c) = c_loaded c.
+Proof. intros; split; [apply init_skip; assumption|repeat split]. Qed.
+Print Assumptions C20_skip_init.
+
+(** * Non-vacuity: concrete file sets run through [init] (evaluated) *)
+Definition y (l : list (string * val)) : val := VDict (map (fun kv => (VStr (fst kv), snd kv)) l).
+
+Definition fs_all : fsys := fs_of_list
+  [ ("/SB/c1/pypyr/config.yaml",
+       y [("default_group", VStr "c1"); ("json_indent", VInt 1);
+          ("vars", y [("a", VStr "c1"); ("b", VStr "c1")])]);
+    ("/SB/c2/pypyr/config.yaml",
+       y [("default_group", VStr "c2"); ("default_backoff", VStr "c2"); ("json_indent", VInt 9);
+          ("vars", y [("a", VStr "c2"); ("c", VStr "c2")])]);
+    ("/SB/u/pypyr/config.yaml",
+       y [("default_backoff", VStr "u"); ("vars", y [("a", VStr "u")]);
+          ("shortcuts", y [("s", y [("pipeline_name", VStr "u")])])]);
+    ("pyproject.toml",
+       y [("project", y [("name", VStr "x")]);
+          ("tool", y [("pypyr", y [("default_group", VStr "toml"); ("vars", y [("t", VInt 1)])])])]);
+    ("pypyr-config.yaml",
+       y [("default_loader", VStr "local"); ("vars", y [("b", VStr "local")])]);
+    ("/SB/g.yaml", y [("json_indent", VInt 4)]) ].
+
+Definition env_global : env :=
+  mkEnv None (Some "/SB/g.yaml") None (Some "/SB/c1:/SB/c2") (Some "/SB/u") "/SB/home" None None None.
+Definition env_skip : env :=
+  mkEnv (Some "TRUE") None None (Some "/SB/c1:/SB/c2") (Some "/SB/u") "/SB/home" None None None.
+
+Definition look_all (c : cres config) (s : string) : option val :=
+  match c with COk c => setting s c | _ => None end.
+Definition look_var (c : cres config) (k : string) : option val :=
+  match c with COk c => dict_get (VStr k) (c_vars c) | _ => None end.
+
+Example C20_precedence_nonvacuous :
+  let r := init env0 fs_all (defaults env0) in
+  skip_requested env0 = false
+  /\ (exists c', r = COk c')
+  /\ look_all r "default_group" = Some (VStr "toml")       (* pyproject beats c1, c2 *)
+  /\ look_all r "default_backoff" = Some (VStr "u")        (* user beats c2 *)
+  /\ look_all r "json_indent" = Some (VInt 1)              (* first-listed common beats last-listed *)
+  /\ look_all r "default_loader" = Some (VStr "local")
+  /\ look_all r "default_failure_group" = Some (VStr "on_failure")   (* nobody sets it *)
+  /\ look_var r "a" = Some (VStr "u") /\ look_var r "b" = Some (VStr "local")
+  /\ look_var r "c" = Some (VStr "c2") /\ look_var r "t" = Some (VInt 1)
+  /\ look_var r "zz" = None
+  /\ pyproject_wellformed fs_all = true
+  /\ forallb (fun pv => payload_wellformed (snd pv)) (precedence env0 fs_all) = true.
+Proof. vm_compute. repeat split. eexists; reflexivity. Qed.
+
+Example C20_global_nonvacuous :
+  let r := init env_global fs_all (defaults env_global) in
+  global_path env_global = Some "/SB/g.yaml"
+  /\ look_all r "json_indent" = Some (VInt 4)
+  /\ look_all r "default_backoff" = Some (VStr "fixed")    (* user and common files not read *)
+  /\ look_all r "default_group" = Some (VStr "toml")
+  /\ look_var r "a" = None /\ look_var r "b" = Some (VStr "local")
+  /\ init env_global (fs_of_list []) (defaults env_global) = CErr (ENotFound "/SB/g.yaml").
+Proof. vm_compute. repeat split. Qed.
+
+Example C20_skip_nonvacuous :
+  skip_requested env_skip = true
+  /\ init env_skip fs_all (defaults env_skip) = COk (with_skip (defaults env_skip)).
+Proof. vm_compute. split; reflexivity. Qed.
+
+Example C20_rejections_nonvacuous :
+  init env0 (fs_of_list [("/SB/c2/pypyr/config.yaml", y [("default_group", VStr "x"); ("bogus", VInt 1)])])
+       (defaults env0) = CErr (EUnknownProps [VStr "bogus"])
+  /\ init env0 (fs_of_list [("/SB/u/pypyr/config.yaml", VList [VInt 1])]) (defaults env0)
+     = CErr (ENotMapping "/SB/u/pypyr/config.yaml")
+  /\ init env0 (fs_of_list [("pyproject.toml", y [("tool", y [("pypyr", VInt 3)])])]) (defaults env0)
+     = CErr (ENotMapping "pyproject.toml")
+  /\ is_known (VStr "bogus") = false /\ py_truth (VList [VInt 1]) = true.
+Proof. vm_compute. repeat split. Qed.
